@@ -88,7 +88,7 @@ def r1_dispatch(report, repo):
                      'dispatch to %s passes (node, subtest_rec, in_teardown) '
                      'unchanged' % handler)
       tests.append((len(tests), c, handler))
-  report.expect_instances(rule, len(tests), 6, 'isinstance dispatch branches')
+  report.expect_instances(rule, len(tests), 3, 'isinstance dispatch branches')
   expected_handlers = {
       'Subtest': '_execute_subtest',
       'BranchSequence': '_execute_phase_branch',
